@@ -635,7 +635,7 @@ fn evidence(
         "C17" => &[
             "W-SHORT", "W-EINTR", "R-SHORT", "R-EINTR", "D-PREFILL", "S-FORM", "L-NONE", "L-BIG", "W-ERR", "M-TRUNC", "M-FLIP", "M-SUB", "M-ZERO",
             "M-DUP", "M-TAIL", "M-FIELD", "M-GARBAGE", "M-FORGE", "M-PAD0", "R-ERR", "R-EOF", "A-BUDGET", "L-SMALL", "S-FLAG", "S-ALIEN", "S-ERR", "P-SKEW", "N-NEG", "T-TRUNC", "T-SUB",
-            "T-INS", "T-MULTIBYTE", "T-UNDERSCORE", "T-CASE", "T-PREFIX", "T-RADIX", "T-DIGIT", "T-OVER", "G-DROP", "G-CORRUPT", "G-APPEND", "G-BASE",
+            "T-INS", "T-MULTIBYTE", "T-WIDECHAR", "T-UNDERSCORE", "T-CASE", "T-PREFIX", "T-RADIX", "T-DIGIT", "T-OVER", "G-DROP", "G-CORRUPT", "G-APPEND", "G-BASE",
         ],
         _ => &["E-STREAM", "E-FAIL", "E-DRY", "E-SEED", "E-WALK", "M-FLIP", "M-TRUNC", "R-EINTR"],
     };
